@@ -79,7 +79,7 @@ func readAll(db *aquadb.LDBDatabase) map[string][]byte {
 func runKill(c *fw.Ctx, spec Spec) {
 	var wl *Workload
 	var a *analysis
-	ok := c.Case("run-"+spec.Name, spec, func() {
+	ok := setupCase(c, "run-"+spec.Name, spec, func() {
 		wl = Build(spec)
 		run := wl.Execute(nil, nil)
 		for i, e := range run.StepErrs {
